@@ -417,8 +417,13 @@ func mayAuth(c *Conn) bool {
 // unchanged (rule above). __called / __failed are ghost records of back-end
 // calls made by the function under verification.
 
+// (C17: LOGIN's arguments - the credentials, possibly as synchronising
+// literals that the server would have to solicit with "+" - are read from the
+// wire only on a connection where credentials would be accepted.)
+//
 //@ func (c *Conn) handleLogin(tag string, dec *imapwire.Decoder) (err error)
-//@   props C04:post,pre@call
+//@   props C04:post,pre@call C17:callsite C05:callsite
+//@   callsite Decoder.ExpectAString(d *imapwire.Decoder, ptr *string) requires mayAuth(c)
 //@   requires tag != ""
 //@   ensures err == nil ==> __ghost("tagged") == old(__ghost("tagged"))+1
 //@   ensures err != nil ==> __ghost("tagged") == old(__ghost("tagged")) || __failed("Conn.writeCapabilityStatus")
